@@ -445,3 +445,45 @@ func ruleMapSize(rule string) ruleFn {
 		}
 	}
 }
+
+// ruleMapBound: what is inside the block map is decided by the block map's own length: a cached
+// or derived size goes stale when the map is grown (Resize appends to it), and a sector of the
+// grown range is then answered as "outside: read the head / nothing there".
+func ruleMapBound(rule string) ruleFn {
+	return func(c *Ctx) {
+		c.Doc(rule, "diffDisk.lookup: every access of location[sector] stands behind the comparison of that sector with len(d.location) itself (not with a size kept elsewhere); UsedGenerator.findExtents bounds the scan by len(location) * sectorSize")
+		fn := c.Anchor(rule, "(*replica.diffDisk).lookup")
+		if fn == nil {
+			return
+		}
+		R := NewRenderer(fn)
+		var sites []ssa.Instruction
+		eachInstr(fn, func(in ssa.Instruction) {
+			if ia, ok := in.(*ssa.IndexAddr); ok && strings.HasPrefix(R.V(ia), "&$0.location[") {
+				sites = append(sites, in)
+			}
+		})
+		if len(sites) == 0 {
+			c.Bad(rule, FnName(fn)+" | block map accessed", c.P.Pos(fn.Pos()), "no access of d.location found in lookup", nil)
+			return
+		}
+		c.Guard(rule, fn, sites, "location[sector]", nil, atom("sector < len(d.location)", "-$1 +len($0.location) -1 >=0"))
+		if g := c.Anchor(rule, "(*replica.UsedGenerator).findExtents"); g != nil {
+			GR := NewRenderer(g)
+			ok := false
+			eachInstr(g, func(in ssa.Instruction) {
+				if cl, isCall := in.(*ssa.Call); isCall {
+					if b, isB := cl.Call.Value.(*ssa.Builtin); isB && b.Name() == "len" && strings.HasSuffix(GR.V(cl.Call.Args[0]), ".d.location") {
+						ok = true
+					}
+				}
+			})
+			key := FnName(g) + " | scan bounded by the block map's length"
+			if ok {
+				c.OK(rule, key, c.P.Pos(g.Pos()), "len(u.d.location)", false)
+			} else {
+				c.Bad(rule, key, c.P.Pos(g.Pos()), "the extent scan is no longer bounded by len(d.location)", nil)
+			}
+		}
+	}
+}
